@@ -239,12 +239,13 @@ func genProgram(r *mon.Rand, ctx *app.RequestContext, n int) []mcall {
 }
 
 type slot struct {
-	prog     []mcall
-	panicEnd bool
-	dump     string
-	dirtyPtr uintptr
-	probePtr uintptr
-	panics   int
+	readFirst int // streaming harness: bytes the dirty handler reads from its body stream
+	prog      []mcall
+	panicEnd  bool
+	dump      string
+	dirtyPtr  uintptr
+	probePtr  uintptr
+	panics    int
 }
 
 type harness struct {
@@ -253,9 +254,11 @@ type harness struct {
 	e     *route.Engine
 }
 
-func newHarness() *harness {
+func newHarness() *harness { return newHarnessMode(false) }
+
+func newHarnessMode(stream bool) *harness {
 	h := &harness{slots: map[string]*slot{}}
-	opt := rig.Options(func(o *config.Options) {})
+	opt := rig.Options(func(o *config.Options) { o.StreamRequestBody = stream })
 	h.e = rig.NewEngine(opt, func(e *route.Engine) {
 		e.Use(recovery.Recovery())
 		e.Any("/dirty/:dp/*rest", func(c context.Context, ctx *app.RequestContext) {
@@ -267,6 +270,10 @@ func newHarness() *harness {
 				return
 			}
 			s.dirtyPtr = reflect.ValueOf(ctx).Pointer()
+			if stream && s.readFirst > 0 {
+				buf := make([]byte, s.readFirst)
+				ctx.RequestBodyStream().Read(buf)
+			}
 			for _, mc := range s.prog {
 				func() {
 					defer func() {
@@ -487,6 +494,78 @@ func work(w *mon.W) {
 		w.Count("concurrent_batches", 1)
 	})
 	poolFamily(w)
+	streamAbortFamily(w)
+}
+
+// streamAbortFamily: engine with streamed request bodies; the dirty request's chunked
+// body is read partly by its handler and then the peer vanishes mid-body (draining
+// fails); the probe — a chunked request on a new connection of the same engine — must be
+// seen exactly as on a fresh engine (the pooled stream objects are recycled).
+func streamAbortFamily(w *mon.W) {
+	probe := func(id string) string {
+		return "POST /probe/v?pq=1 HTTP/1.1\r\nHost: probe.host\r\nContent-Type: application/x-www-form-urlencoded\r\nTransfer-Encoding: chunked\r\nCookie: pc=1\r\nX-Probe: " + id + "\r\n\r\n3\r\npf=\r\n2\r\nab\r\n0\r\n\r\n"
+	}
+	fresh := newHarnessMode(true)
+	fresh.slots["ref000000000"] = &slot{}
+	refOut, _ := fresh.run(probe("ref000000000"))
+	refDump := fresh.slots["ref000000000"].dump
+	if refDump == "" {
+		w.Note("stream-abort: reference probe did not run")
+		return
+	}
+	h := newHarnessMode(true)
+	w.Cases("stream-abort", uint64(w.Pick(1500, 40000)), func(c *mon.Case) {
+		r := c.R
+		id := fmt.Sprintf("a%011d", c.I)
+		s := &slot{readFirst: r.Int(0, 1, 3, 7, 20)}
+		tmp := h.e.NewContext()
+		s.prog = genProgram(r, tmp, r.Intn(4))
+		var ds []string
+		for _, mc := range s.prog {
+			ds = append(ds, mc.desc)
+		}
+		h.mu.Lock()
+		h.slots[id] = s
+		h.mu.Unlock()
+		defer func() {
+			h.mu.Lock()
+			delete(h.slots, id)
+			h.mu.Unlock()
+		}()
+		// dirty chunked request, truncated inside the body
+		body := "8\r\n01234567\r\n10\r\n89abcdefghijklmn\r\n5\r\nopqrs\r\n0\r\n\r\n"
+		head := "POST /dirty/x/y/z?dq=1 HTTP/1.1\r\nHost: dirty.host\r\nTransfer-Encoding: chunked\r\nX-Conn: " + id + "\r\n\r\n"
+		cut := 1 + r.Intn(len(body)-6)
+		c.Detail = func() interface{} {
+			return map[string]interface{}{"family": "stream-abort", "dirty_handler_reads": s.readFirst, "program": ds, "body_cut_at": cut}
+		}
+		_, res := h.run(head + body[:cut])
+		if res.Hang || res.Panic != nil {
+			c.Violate("abort-crash", "truncated streamed request hangs or panics: %v", res.Panic)
+			return
+		}
+		w.Count("stream_abort_histories", 1)
+		s.dump, s.probePtr = "", 0
+		out, res := h.run(probe(id))
+		if res.Hang || res.Panic != nil {
+			c.Violate("probe-crash", "probe after an aborted streamed request hangs or panics: %v\n%s", res.Panic, trunc(res.Stack, 1500))
+			return
+		}
+		if s.dump == "" {
+			c.Violate("probe-not-served", "probe after an aborted streamed request (handler read %d bytes, body cut at %d) was not served; output %q", s.readFirst, cut, trunc(out, 300))
+			return
+		}
+		w.Count("probes_compared", 1)
+		if s.dump != refDump {
+			c.Violate(diffKey(refDump, s.dump), "streamed probe after an aborted streamed request (handler read %d bytes, body cut at %d, program %v) differs from a fresh engine:\n   %s", s.readFirst, cut, ds, diffLines(refDump, s.dump))
+			return
+		}
+		if po := lastResponse(out); po != refOut {
+			c.Violate("stale@response-bytes", "probe response differs: fresh %q recycled %q", refOut, po)
+			return
+		}
+		w.Shape(mon.Hash64("stream-abort", s.readFirst, cut, strings.Join(ds, ";")))
+	})
 }
 
 // ---- Acquire/Release pools -----------------------------------------------------
